@@ -51,6 +51,13 @@ def generate(ctx):
         yield d
 
 
+    # (b2) delays that are not whole steps, delayed=True: the post-triggered term is a function of continuous time
+    for i in range(300 if th else 16):
+        yield {"part": "fracdelay", "conn": rng.choice(["dense", "direct"]), "dt": rng.choice([1.0, 0.5]), "B": rng.randint(1, 3),
+               "T": rng.randint(8, 14), "signs": rng.randrange(2), "trace_mode": rng.choice(["cumulative", "nearest"]),
+               "p": rng.choice([0.3, 0.5, 0.8]), "seed": rng.randrange(1 << 30),
+               "fracs": [rng.choice([0.0, 0.5, 0.25, 0.75, 0.3, round(rng.uniform(0.05, 0.95), 2)]) for _ in range(3)]}
+
     # (c) two cells sharing one neuron group in one trainer, hyper-parameters overridden per cell and differing in a few places
     MULTI = ["STDP", "TripletSTDP", "MSTDP", "MSTDPET", "KernelSTDP", "DelayAdjustedSTDP", "DelayAdjustedMSTDP"]
     keys = ["lr_a", "lr_b", "tc_a", "tc_b", "lr_a3", "lr_b3", "trace_mode", "tc_elig"]
@@ -156,6 +163,52 @@ def _histories(desc, h_in_shape=None):
     raise AssertionError
 
 
+def run_fracdelay(ctx, desc, prop="C08"):
+    """STDP, delayed=True, per-synapse delays (k + f) * dt: the post-triggered term pairs each post spike with the pre spikes
+    whose (continuous) arrival time s*dt + d is not later than the post spike - sum of eta_post * exp(-(t*dt - s*dt - d)/tau_pre).
+    (The pre-triggered term needs a convention for aligning a fractional arrival to the step grid and is not judged here.)"""
+    a, b = SIGNS[desc["signs"]]
+    hyper = {"lr_a": a, "lr_b": b, "trace_mode": desc["trace_mode"], "delayed": True}
+    try:
+        h = tr.Harness("STDP", desc["conn"], dt=desc["dt"], B=desc["B"], delay_steps=2, seed=desc["seed"], batch_reduction=torch.sum,
+                       hyper=hyper, dtype=torch.float64, max_delay_steps=3)
+    except Exception as e:  # noqa: BLE001
+        ctx.violation(ctx.exc_signature(e, "construct.STDP.fracdelay"), f"{type(e).__name__}: {str(e)[:160]}", desc)
+        return False
+    g = torch.Generator().manual_seed(desc["seed"] + 11)
+    k = torch.randint(0, 3, h.conn.delay.shape, generator=g).to(torch.float64)
+    f = torch.tensor(desc["fracs"], dtype=torch.float64)[torch.randint(0, 3, h.conn.delay.shape, generator=g)]
+    h.conn.delay = ((k + f) * h.dt).to(h.conn.delay.dtype)
+    orc = tr.Oracle("STDP", desc["conn"], h.conn, h.dt, hyper, "sum")
+    ish, osh = (desc["B"],) + tuple(h.conn.inshape), (desc["B"],) + tuple(h.conn.outshape)
+    W = tuple(h.conn.weight.shape)
+    tb = orc.h["tc_b"]
+    for t in range(desc["T"]):
+        rdesc = {**desc, "T": t + 1}
+        pre = torch.rand(ish, generator=g) < desc["p"]
+        post = torch.rand(osh, generator=g) < desc["p"]
+        delays = h.conn.delay.detach().to(torch.float64).numpy().copy()
+        try:
+            pos, neg, _ = h.step_apply(pre, post, None, 1.0)
+        except Exception as e:  # noqa: BLE001
+            ctx.violation(ctx.exc_signature(e, "step.STDP.fracdelay"), f"{type(e).__name__}: {str(e)[:200]}", rdesc)
+            return False
+        pe, qe = tr._expand(desc["conn"], h.conn, pre, post)
+        orc.pre_raw.append(pe)
+        teff = np.broadcast_to(t - delays.reshape((1,) + W + (1,)) / h.dt, pe.shape)
+        xa = orc._trace(orc.pre_raw, tb, teff)
+        expected = (qe * abs(a) * xa).sum(-1).sum(0)
+        got = _np(pos if a >= 0 else neg)
+        ctx.case(f"{prop}/fracdelay/{desc['conn']}/signs{desc['signs']}/{desc['trace_mode']}/B{desc['B']}/{'pairs' if expected.any() else 'nopairs'}")
+        ctx.count("fractional_delay_steps_checked")
+        if not np.allclose(got, expected, rtol=1e-8, atol=1e-10):
+            ctx.violation(f"STDP.fracdelay.post_triggered_term_ne_pair_sum.{desc['conn']}.{desc['trace_mode']}",
+                          f"step {t}: the post-triggered part differs from the sum over pre spikes arrived by then", rdesc,
+                          {"max_err": float(np.abs(got - expected).max())})
+            return False
+    return True
+
+
 def run_multicell(ctx, desc, prop="C08"):
     name = desc["trainer"]
     topo = desc.get("topology", "fan_in")
@@ -214,6 +267,8 @@ def run_case(ctx, desc, prop="C08", extra_check=None):
         ctx.sample(desc)
     if desc["part"] == "multicell":
         return run_multicell(ctx, desc, prop)
+    if desc["part"] == "fracdelay":
+        return run_fracdelay(ctx, desc, prop)
     if desc["part"] == "exhaustive":
         d = {**desc, "conn": "dense", "B": 1, "dt": 1.0, "seed": 0}
         # all pre neurons share the pre history, all post neurons the post history: every synapse is the 1x1 cell
